@@ -376,6 +376,32 @@ def c19_records(target, tier, rnd):
     return recs
 
 
+
+def c03_records(target, tier, rnd):
+    """select(batch_bool_constant, a, b) for every element type: the compile-time form of C03's select clause"""
+    recs = []
+    for ty in CT:
+        if not cap("select_const", target, ty):
+            continue
+        n = lanes(target, ty)
+        masks = []
+        if n <= 4:
+            masks = [[(m >> i) & 1 for i in range(n)] for m in range(1 << n)]
+        else:
+            pos = sorted({0, 1, n // 2 - 1, n // 2, n - 2, n - 1}) if tier == "quick" else list(range(n))
+            for k in pos:
+                masks.append([int(i == k) for i in range(n)])
+                masks.append([int(i != k) for i in range(n)])
+            masks.append([i & 1 for i in range(n)])
+            masks.append([1 - (i & 1) for i in range(n)])
+            masks.append([int(i < n // 2) for i in range(n)])
+            masks.append([int(i >= n // 2) for i in range(n)])
+            for _ in range(2 if tier == "quick" else 24):
+                masks.append([int(rnd.random() < 0.5) for _ in range(n)])
+        for m in masks:
+            recs.append(Record("select_const", ty, m, "select", nontrivial=0 < sum(m) < n))
+    return recs
+
 def run(prop, tier, seed, records_fn, outdir, targets=None):
     """returns dict(evaluations, distinct_nontrivial, samples, violations[(target, record, detail)], lost, per_target)"""
     targets = targets or [a["name"] for a in build.archs()]
